@@ -294,6 +294,7 @@ type alMatOpts struct {
 	sym     bool
 	open    int
 	anyGaps bool // gap scores may be positive (outside Local's domain: Global only)
+	harsh   bool // a mismatch costs more than a deletion plus an insertion: optimal alignments put gaps of both kinds side by side
 }
 
 func alGenMatrix(r *rand.Rand, name string, letters []byte, o alMatOpts) alTable {
@@ -312,10 +313,16 @@ func alGenMatrix(r *rand.Rand, name string, letters []byte, o alMatOpts) alTable
 				sc[[2]int{int(x), int(y)}] = []int{1, 1, 2, 2, 3, 0}[r.Intn(6)]
 			} else {
 				sc[[2]int{int(x), int(y)}] = []int{-3, -2, -1, -1, 0, 1}[r.Intn(6)]
+				if o.harsh {
+					sc[[2]int{int(x), int(y)}] = -7 - r.Intn(4)
+				}
 			}
 		}
 		sc[[2]int{int(x), align.Gap}] = gap()
 		sc[[2]int{align.Gap, int(x)}] = gap()
+		if o.harsh {
+			sc[[2]int{int(x), align.Gap}], sc[[2]int{align.Gap, int(x)}] = -r.Intn(2), -1
+		}
 	}
 	if o.sym {
 		for _, x := range letters {
@@ -490,6 +497,15 @@ func buildAlignPlan(prop string) (*alPlan, error) {
 	}
 	for i, o := range opens(n1) {
 		t := pb.table(alGenMatrix(r, fmt.Sprintf("seeded-2-%d", i), l2, alMatOpts{sym: i%2 == 0, open: o}))
+		for _, a := range s2 {
+			for _, b := range s2 {
+				pb.call(t, a, b)
+			}
+		}
+	}
+	// F1h: mismatches dearer than a deletion plus an insertion (gaps of both kinds end up adjacent): every pair up to length 4
+	for i, o := range opens(2 * mult) {
+		t := pb.table(alGenMatrix(r, fmt.Sprintf("harsh-2-%d", i), l2, alMatOpts{sym: i%2 == 0, open: o, harsh: true}))
 		for _, a := range s2 {
 			for _, b := range s2 {
 				pb.call(t, a, b)
